@@ -145,6 +145,16 @@ CHECKS.update({
                 design='4.9'),
 })
 
+CHECKS.update({
+    'C16': dict(level='translation_validation', technique='compile witnesses: generated witness crates type-checked by the compiler; macro expansions read from the MIR of the witness crate (rustc_private driver) and compared with a checker-side reference canonicaliser; compiler diagnostics located per invocation',
+                text='Translation validation on a generated witness set (quick: ~440 well-formed + ~65 ill-formed invocations of langid!, lang!, script!, region!, variant!, locale!, langids!, langid_slice!, '
+                     'locales!; thorough: several thousand): every well-formed invocation type-checks and its expansion - the integer constants handed to the unchecked constructors and the extension string '
+                     'handed to the run-time parse, read from MIR - encodes exactly the canonical value the reference canonicaliser computes for the literal; every ill-formed literal is a compile error whose '
+                     'expansion backtrace ends at its own invocation, and interleaved well-formed control invocations are not reported. The run-time parse that locale! emits succeeds by the spec round trip (C05).',
+                note='Only the generated witness programs are decided (VERIF_SEED permutes the selection). That run-time parsing equals the reference canonicaliser is C02/C03. Nothing is executed: the compiler expands and type-checks.',
+                design='4.16'),
+})
+
 NOT_YET = {}
 
 
